@@ -105,11 +105,9 @@ Theorem consume_total : forall ts, ts_err ts = false ->
 Proof.
   intros [src io start head err eof] Herr. cbn [ts_err] in Herr. subst err.
   unfold ts_consume, ts_consume_with. cbn [ts_err ts_src ts_head ts_io ts_eof].
-  destruct (if eof then lex_past_eof (skipn io src) else lex_go SWs false [] 0 (skipn io src)) as [[r k] e'] eqn:L.
+  destruct (lex_go SWs false [] 0 (skipn io src)) as [[r k] e'] eqn:L.
   destruct r as [s| |]; try (eexists; split; [reflexivity | split; reflexivity]).
   (* a token: its trimmed source is not empty *)
-  destruct eof.
-  { revert L. unfold lex_past_eof. destruct (skipn io src); discriminate. }
   pose proof (lex_go_tok_has_nonws _ _ _ _ _ L) as (j & c & Hj & Hn & Hc). cbn [Nat.add] in Hj.
   rewrite nth_error_skipn in Hn.
   set (io2 := revert_newline src (io + k)).
@@ -143,11 +141,11 @@ Theorem consume_line_spec : forall fwd ts,
               ts_src ts' = ts_src ts /\ ts_start ts' = next_start fwd (ts_src ts) (ts_start ts).
 Proof.
   intros fwd [src io start head err eof].
-  unfold ts_consume_line, ts_remaining_part_of_current_line, next_start. cbn [ts_src ts_start ts_io ts_head ts_err ts_eof].
+  unfold ts_consume_line, ts_consume_line_with, ts_remaining_part_of_current_line, next_start. cbn [ts_src ts_start ts_io ts_head ts_err ts_eof].
   destruct (Nat.eqb start (length src)) eqn:E.
   - eexists. split; [reflexivity|]. cbn. auto.
   - destruct (find_nl src start) as [p|] eqn:F.
-    + destruct (nonempty (slice src start p) && negb (py_str_isspace (slice src start p))).
+    + destruct (relex_lexer_blank (slice src start p)).
       * destruct (consume_total (TS src (p + (if fwd then 1 else 0)) start head false eof) eq_refl) as (ts' & Hc & Hsrc & Hst).
         rewrite Hc. cbn [bind snd]. eexists. split; [reflexivity|]. cbn [ts_src ts_io] in *. auto.
       * eexists. split; [reflexivity|]. cbn. auto.
